@@ -48,7 +48,7 @@ func (c *c20) Assumptions() []string {
 }
 
 func (c *c20) ProbeNames() []string {
-	return []string{"pattern_with_star", "pattern_with_two_or_more_stars_in_segment", "absolute_pattern", "wildcard_directory_segment", "expected_set_nonempty", "match_requires_non_first_occurrence", "directory_and_file_share_stem", "directory_name_matches_file_segment", "empty_directory", "large_directory"}
+	return []string{"pattern_with_star", "pattern_with_two_or_more_stars_in_segment", "absolute_pattern", "wildcard_directory_segment", "expected_set_nonempty", "match_requires_non_first_occurrence", "directory_and_file_share_stem", "directory_name_matches_file_segment", "empty_directory", "large_directory", "wide_fanout_of_directories", "symbolic_links_in_tree"}
 }
 
 func (c *c20) SweepPrefix(string, uint64) []uint64 { return nil }
@@ -63,9 +63,10 @@ type c20node struct {
 	name string
 	dir  bool
 	kids []*c20node
+	link *c20node // a symbolic link to this node (a directory or a file elsewhere in the tree)
 }
 
-var c20stems = []string{"a", "b", "ab", "a.txt", "txt", ".txt", "x", "t", "aa", "ba", "a.b", "."}
+var c20stems = []string{"a", "b", "ab", "a.txt", "txt", ".txt", "x", "t", "aa", "ba", "a.b", ".", "\u00e9", "\U0001F600", "\u65e5", "_"}
 
 func c20name(t *Tape) string {
 	n := t.Range(1, 3)
@@ -73,8 +74,8 @@ func c20name(t *Tape) string {
 	for i := 0; i < n; i++ {
 		s += c20stems[t.Draw(len(c20stems))]
 	}
-	if len(s) > 8 {
-		s = s[:8]
+	if r := []rune(s); len(r) > 8 {
+		s = string(r[:8])
 	}
 	if s == "." || s == ".." {
 		s = "a" + s
@@ -112,6 +113,9 @@ func c20tree(t *Tape, depth int) []*c20node {
 func c20materialise(dir string, nodes []*c20node) {
 	for _, n := range nodes {
 		p := filepath.Join(dir, n.name)
+		if n.link != nil {
+			continue // links are made once their targets exist (c20links)
+		}
 		if n.dir {
 			os.Mkdir(p, 0755)
 			c20materialise(p, n.kids)
@@ -121,11 +125,64 @@ func c20materialise(dir string, nodes []*c20node) {
 	}
 }
 
+// c20links creates the symbolic links of the tree; targetPath gives the absolute path of a node.
+func c20links(dir string, nodes []*c20node, targetPath map[*c20node]string) {
+	for _, n := range nodes {
+		p := filepath.Join(dir, n.name)
+		if n.link != nil {
+			os.Symlink(targetPath[n.link], p)
+			continue
+		}
+		if n.dir {
+			c20links(p, n.kids, targetPath)
+		}
+	}
+}
+
+func c20index(dir string, nodes []*c20node, targetPath map[*c20node]string) {
+	for _, n := range nodes {
+		p := filepath.Join(dir, n.name)
+		targetPath[n] = p
+		if n.dir && n.link == nil {
+			c20index(p, n.kids, targetPath)
+		}
+	}
+}
+
+// view of a node through links: is it a directory, and which entries does it hold
+func (n *c20node) isDir() bool {
+	if n.link != nil {
+		return n.link.isDir()
+	}
+	return n.dir
+}
+
+func (n *c20node) entries() []*c20node {
+	if n.link != nil {
+		return n.link.entries()
+	}
+	return n.kids
+}
+
 func c20paths(prefix string, nodes []*c20node, files *[]string, dirs *[]string) {
 	for _, n := range nodes {
 		p := n.name
 		if prefix != "" {
 			p = prefix + "/" + n.name
+		}
+		if n.link != nil {
+			// listed for pattern derivation only; what is behind a link is reached through the reference glob
+			if n.isDir() {
+				*dirs = append(*dirs, p)
+				for _, k := range n.entries() {
+					if !k.isDir() {
+						*files = append(*files, p+"/"+k.name)
+					}
+				}
+			} else {
+				*files = append(*files, p)
+			}
+			continue
 		}
 		if n.dir {
 			*dirs = append(*dirs, p)
@@ -137,18 +194,28 @@ func c20paths(prefix string, nodes []*c20node, files *[]string, dirs *[]string) 
 }
 
 // reference glob over the model tree
+// c20ambiguous is set when the last segment matches a symbolic link to a directory:
+// whether that is "a file" is not something the property settles, so the evaluation is skipped.
+var c20ambiguous bool
+
 func c20ref(prefix string, nodes []*c20node, segs []string, out *[]string) {
 	if len(segs) == 1 {
 		for _, n := range nodes {
-			if !n.dir && starMatch(segs[0], n.name) {
+			if !starMatch(segs[0], n.name) {
+				continue
+			}
+			if n.link != nil && n.isDir() {
+				c20ambiguous = true
+			}
+			if !n.isDir() {
 				*out = append(*out, prefix+n.name)
 			}
 		}
 		return
 	}
 	for _, n := range nodes {
-		if n.dir && starMatch(segs[0], n.name) {
-			c20ref(prefix+n.name+"/", n.kids, segs[1:], out)
+		if n.isDir() && starMatch(segs[0], n.name) {
+			c20ref(prefix+n.name+"/", n.entries(), segs[1:], out)
 		}
 	}
 }
@@ -236,15 +303,43 @@ func (c *c20) Run(ctx *RunCtx) *RunResult {
 	tree := c20tree(t, 0)
 	// now and then one directory is large: more entries than any single directory read returns at once
 	if t.Draw(40) == 1 {
-		big := &c20node{name: "big", dir: true}
+		big := &c20node{name: "BIG", dir: true}
 		n := t.Range(120, 700)
 		for i := 0; i < n; i++ {
-			big.kids = append(big.kids, &c20node{name: fmt.Sprintf("f%d.%s", i, []string{"txt", "a", "b.txt"}[i%3])})
+			nm := fmt.Sprintf("f%d.%s", i, []string{"txt", "a", "b.txt"}[i%3])
+			if i%11 == 5 {
+				nm = fmt.Sprintf("f%d_\U0001F600.txt", i) // a character beyond the basic multilingual plane
+			}
+			big.kids = append(big.kids, &c20node{name: nm})
 		}
 		tree = append(tree, big)
 		ctx.Count("large_directory", 1)
 	}
+	// now and then a wide fan-out of sub-directories two levels down (a wildcard then sits in the third segment)
+	if t.Draw(40) == 2 {
+		wide := &c20node{name: "W", dir: true}
+		n := t.Range(30, 80)
+		for i := 0; i < n; i++ {
+			wide.kids = append(wide.kids, &c20node{name: fmt.Sprintf("d%d", i), dir: true, kids: []*c20node{{name: fmt.Sprintf("f%d.txt", i%7)}, {name: "a"}}})
+		}
+		tree = append(tree, &c20node{name: "X", dir: true, kids: []*c20node{wide, {name: "a"}}})
+		ctx.Count("wide_fanout_of_directories", 1)
+	}
+	// symbolic links to a directory and to a file kept elsewhere in the tree
+	if t.Draw(6) == 1 {
+		store := &c20node{name: "STORE", dir: true, kids: []*c20node{
+			{name: "core", dir: true, kids: []*c20node{{name: "a.txt"}, {name: "b"}, {name: "ab.txt"}}},
+			{name: "one.txt"},
+		}}
+		tree = append(tree, store)
+		host := &c20node{name: "PK", dir: true, kids: []*c20node{{name: "core", link: store.kids[0]}, {name: "l.txt", link: store.kids[1]}, {name: "a.txt"}}}
+		tree = append(tree, host)
+		ctx.Count("symbolic_links_in_tree", 1)
+	}
 	c20materialise(root, tree)
+	targetPath := map[*c20node]string{}
+	c20index(root, tree, targetPath)
+	c20links(root, tree, targetPath)
 	var fileList, dirList []string
 	c20paths("", tree, &fileList, &dirList)
 	sort.Strings(fileList)
@@ -305,7 +400,12 @@ func (c *c20) Run(ctx *RunCtx) *RunResult {
 		}
 		pat := strings.Join(segs, "/")
 		var want []string
+		c20ambiguous = false
 		c20ref("", tree, segs, &want)
+		if c20ambiguous {
+			ctx.Count("excluded_pattern", 1)
+			continue
+		}
 		sort.Strings(want)
 		arg := pat
 		cwd := root
